@@ -453,6 +453,10 @@ func (p *proxyConn) writeResponse(res *http.Response) error {
 		if req.Method == http.MethodConnect && res.StatusCode/100 == 2 {
 			res.Close = false
 		}
+		// Likewise, a protocol upgrade turns the connection into a tunnel.
+		if res.StatusCode == http.StatusSwitchingProtocols {
+			res.Close = false
+		}
 	}
 
 	if res.Close {
